@@ -398,7 +398,7 @@ func runC11(c *Ctx) {
 
 func runC13(c *Ctx) {
 	P := c.P
-	c.Explanation = "Decides structural clauses: (R-EDITS-WRITERS) Diff.Edits is stored only by New and nothing in package mdiff writes through it (no element store, append or mutating callee with that provenance) — 'Edits always holds the full script and is not disturbed by AddContext or Unify'. (R-CONTEXT-FRESH) the one in-place append on an edit's span in UnifyChunks is guarded by both edits being Emit, New never places an Emit edit in a chunk, and every Emit edit AddContext builds has a freshly allocated span, so merging context cannot write into Left, Right or the script. (R-LR-MIRROR) every update of a chunk's left range has, in the same block, the mirrored update of its right range (LStart↔RStart, LEnd↔REnd, lcur↔rcur, addl↔addr): context lines exist on both sides, so a one-sided update leaves the two ranges describing different amounts of text. Does NOT decide that chunk ranges and edits describe a correct patch; in particular context found by positional comparison reaching across a neighbouring chunk (a data-dependent fault known from earlier dynamic work) has no structural signature and these rules are silent on it."
+	c.Explanation = "Decides structural clauses: (R-EDITS-WRITERS) Diff.Edits is stored only by New and nothing in package mdiff writes through it (no element store, append or mutating callee with that provenance) — 'Edits always holds the full script and is not disturbed by AddContext or Unify'. (R-CONTEXT-FRESH) the one in-place append on an edit's span in UnifyChunks is guarded by both edits being Emit, New never places an Emit edit in a chunk, and every Emit edit AddContext builds has a freshly allocated span, so merging context cannot write into Left, Right or the script. (R-LR-MIRROR) every update of a chunk's left range has, in the same block, the mirrored update of its right range (LStart↔RStart, LEnd↔REnd, lcur↔rcur, addl↔addr): context lines exist on both sides, so a one-sided update leaves the two ranges describing different amounts of text. (R-SIBLING-GUARD) where d.Left[p] is compared with d.Right[q] the dominating guards constrain both indices or neither. Does NOT decide that chunk ranges and edits describe a correct patch; in particular context found by positional comparison reaching across a neighbouring chunk (a data-dependent fault known from earlier dynamic work) has no structural signature and these rules are silent on it."
 	c.rule("R-EDITS-WRITERS", 2, "Diff.Edits is stored only in New; no write through a value derived from it")
 	c.rule("R-CONTEXT-FRESH", 5, "in-place span append only between Emit edits; Emit edits in chunks have fresh, mutually disjoint spans; New puts no Emit edit in a chunk; Unify edits the chunk's own edit list; chunks stay separate only across a strict gap")
 	c.rule("R-LR-MIRROR", 8, "every L-range store has its mirrored R-range store in the same block")
@@ -824,6 +824,7 @@ func runC13(c *Ctx) {
 
 	ruleTrimSide(c)
 	ruleBoundSide(c, "mdiff")
+	ruleSiblingGuard(c, "mdiff")
 
 	// ---- R-LR-MIRROR
 	mirror := strings.NewReplacer(".LStart", ".RStart", ".LEnd", ".REnd", "lcur", "rcur", "addl", "addr")
@@ -1330,4 +1331,237 @@ func ruleBoundSide(c *Ctx, pkg string) {
 			c.judge(own, "R-BOUND-SIDE", key, in.Pos(), "bounded by its own length", "the index into ."+f.Name()+" is tested against len(."+sibling+") and never against len(."+f.Name()+"): the bound is taken from the wrong side")
 		})
 	}
+}
+
+// ruleSiblingGuard (an inconsistent-belief rule): when elements of two sibling
+// slice fields are compared with each other (d.Left[p] against d.Right[q]),
+// the guards that dominate the comparison must constrain both indices or
+// neither.  "Constrain" is read off the variables the expressions are built
+// from: the quantities only p depends on, and the quantities only q depends
+// on, must both occur in some dominating comparison if one of them does.  A
+// loop that bounds the walk by one side's distance only indexes the other side
+// out of range as soon as the two distances differ.
+func ruleSiblingGuard(c *Ctx, pkg string) {
+	c.rule("R-SIBLING-GUARD", 1, "where elements of two sibling slice fields are compared, the dominating guards constrain both indices or neither")
+	var roots func(v ssa.Value, out map[string]bool, seen map[ssa.Value]bool)
+	roots = func(v ssa.Value, out map[string]bool, seen map[ssa.Value]bool) {
+		if v == nil || seen[v] {
+			return
+		}
+		seen[v] = true
+		switch x := v.(type) {
+		case *ssa.Const:
+		case *ssa.Parameter:
+			out["param "+x.Name()] = true
+		case *ssa.BinOp:
+			roots(x.X, out, seen)
+			roots(x.Y, out, seen)
+		case *ssa.Phi:
+			out[fmt.Sprintf("φ%p", x)] = true
+			for _, e := range x.Edges {
+				roots(e, out, seen)
+			}
+		case *ssa.UnOp:
+			if _, f := loadedField(x); f != nil {
+				out["field "+f.Name()] = true
+				return
+			}
+			roots(x.X, out, seen)
+		case *ssa.Convert:
+			roots(x.X, out, seen)
+		case *ssa.ChangeType:
+			roots(x.X, out, seen)
+		case *ssa.Call:
+			for _, a := range x.Call.Args {
+				roots(a, out, seen)
+			}
+		case *ssa.Extract:
+			roots(x.Tuple, out, seen)
+		default:
+			out[fmt.Sprintf("%T%p", v, v)] = true
+		}
+	}
+	// elem: v is an element read xs[idx] of a slice that is a struct field or a parameter;
+	// id names the slice, label prints it
+	type elemRef struct {
+		id, label string
+		idx       ssa.Value
+	}
+	elem := func(v ssa.Value) (elemRef, bool) {
+		var xs, idx ssa.Value
+		switch x := v.(type) {
+		case *ssa.UnOp:
+			ia, isIA := x.X.(*ssa.IndexAddr)
+			if !isIA || x.Op != token.MUL {
+				return elemRef{}, false
+			}
+			xs, idx = ia.X, ia.Index
+		case *ssa.Index:
+			xs, idx = x.X, x.Index
+		default:
+			return elemRef{}, false
+		}
+		if !sliceLike(xs.Type()) {
+			return elemRef{}, false
+		}
+		if b, fld := loadedField(xs); fld != nil {
+			return elemRef{"field " + fld.Name(), sym(b) + "." + fld.Name(), idx}, true
+		}
+		if p, ok := xs.(*ssa.Parameter); ok {
+			return elemRef{"param " + p.Name(), p.Name(), idx}, true
+		}
+		if ph, ok := xs.(*ssa.Phi); ok {
+			// a parameter possibly exchanged with its sibling (as, bs = bs, as)
+			for _, e := range ph.Edges {
+				if _, isP := e.(*ssa.Parameter); !isP {
+					return elemRef{}, false
+				}
+			}
+			lbl := ph.Comment
+			if lbl == "" {
+				lbl = ph.Name()
+			}
+			return elemRef{fmt.Sprintf("φ%p", ph), lbl, idx}, true
+		}
+		return elemRef{}, false
+	}
+	judgePair := func(name string, n *int, at ssa.Instruction, e1, e2 elemRef) {
+		if e1.id == e2.id {
+			return
+		}
+		ip, iq := map[string]bool{}, map[string]bool{}
+		roots(e1.idx, ip, map[ssa.Value]bool{})
+		roots(e2.idx, iq, map[ssa.Value]bool{})
+		// the slice's own length inside its index (xs[len(xs)-1-k]) is not a variable of the walk
+		delete(ip, e1.id)
+		delete(iq, e2.id)
+		rp, rq := map[string]bool{e1.id: true}, map[string]bool{e2.id: true}
+		for r := range ip {
+			rp[r] = true
+		}
+		for r := range iq {
+			rq[r] = true
+		}
+		var ownP, ownQ []string
+		for r := range rp {
+			if !rq[r] {
+				ownP = append(ownP, r)
+			}
+		}
+		for r := range rq {
+			if !rp[r] {
+				ownQ = append(ownQ, r)
+			}
+		}
+		// a dominating comparison constrains a side when it relates something only that side depends on
+		// to something its index is computed from; a comparison relating the two slices to each other
+		// (len(a) == len(b)) links the sides: a bound on one then bounds the other
+		gp, gq, linked := false, false, false
+		meets := func(g map[string]bool, set []string) bool {
+			for _, r := range set {
+				if g[r] {
+					return true
+				}
+			}
+			return false
+		}
+		meetsIdx := func(g, idx map[string]bool) bool {
+			for r := range idx {
+				if g[r] {
+					return true
+				}
+			}
+			return false
+		}
+		for _, cm := range cmpsAt(at.Block()) {
+			g := map[string]bool{}
+			roots(cm.X, g, map[ssa.Value]bool{})
+			roots(cm.Y, g, map[ssa.Value]bool{})
+			if g[e1.id] && g[e2.id] {
+				linked = true
+			}
+			if meets(g, ownP) && meetsIdx(g, ip) {
+				gp = true
+			}
+			if meets(g, ownQ) && meetsIdx(g, iq) {
+				gq = true
+			}
+		}
+		if linked {
+			gp, gq = gp || gq, gp || gq
+		}
+		sort.Strings(ownP)
+		sort.Strings(ownQ)
+		*n++
+		c.sawFn(name)
+		key := fmt.Sprintf("%s:%s[·] ~ %s[·] #%d", name, e1.label, e2.label, *n)
+		switch {
+		case gp == gq:
+			c.ok("R-SIBLING-GUARD", key, at.Pos(), fmt.Sprintf("both sides guarded: %v", gp))
+		case gq:
+			c.bad("R-SIBLING-GUARD", key, at.Pos(), fmt.Sprintf("the guards before this comparison constrain the index into %s (through %v) but nothing the index into %s alone depends on (%v): that index can run out of range when the two sides differ", e2.label, ownQ, e1.label, ownP))
+		default:
+			c.bad("R-SIBLING-GUARD", key, at.Pos(), fmt.Sprintf("the guards before this comparison constrain the index into %s (through %v) but nothing the index into %s alone depends on (%v): that index can run out of range when the two sides differ", e1.label, ownP, e2.label, ownQ))
+		}
+	}
+	for _, fn := range c.P.PkgFuncs(pkg) {
+		name := fnName(fn)
+		n := 0
+		allInstrs(fn, func(in ssa.Instruction) {
+			switch x := in.(type) {
+			case *ssa.BinOp:
+				if x.Op != token.EQL && x.Op != token.NEQ {
+					return
+				}
+				e1, ok1 := elem(x.X)
+				e2, ok2 := elem(x.Y)
+				if ok1 && ok2 {
+					judgePair(name, &n, in, e1, e2)
+				}
+			case *ssa.Call:
+				// an equality or comparison callback applied to one element of each
+				if len(x.Call.Args) != 2 || x.Call.IsInvoke() {
+					return
+				}
+				if staticCallee(&x.Call) != nil {
+					if _, isClosure := x.Call.Value.(*ssa.MakeClosure); !isClosure {
+						return
+					}
+				}
+				e1, ok1 := elem(x.Call.Args[0])
+				e2, ok2 := elem(x.Call.Args[1])
+				if ok1 && ok2 {
+					judgePair(name, &n, in, e1, e2)
+				}
+			}
+		})
+	}
+}
+
+// sliceLike: a slice or string type, or a type parameter whose constraint has
+// a slice core type (Slice ~[]T).
+func sliceLike(t types.Type) bool {
+	if tp, ok := t.(*types.TypeParam); ok {
+		ifc, ok := tp.Constraint().Underlying().(*types.Interface)
+		if !ok {
+			return false
+		}
+		for i := 0; i < ifc.NumEmbeddeds(); i++ {
+			if u, ok := ifc.EmbeddedType(i).(*types.Union); ok {
+				for j := 0; j < u.Len(); j++ {
+					if _, isSlice := u.Term(j).Type().Underlying().(*types.Slice); isSlice {
+						return true
+					}
+				}
+			}
+		}
+		return false
+	}
+	switch u := t.Underlying().(type) {
+	case *types.Slice:
+		return true
+	case *types.Basic:
+		return u.Info()&types.IsString != 0
+	}
+	return false
 }
